@@ -10,7 +10,7 @@
    [nodupk (map (dkey src) ds)]: its deposits are pairwise different (destination, nonce). *)
 From Coq Require Import List NArith Bool Permutation.
 Import ListNotations.
-From SygmaV Require Import Model.C17 Proofs.C17 Proofs.C17_Conc Proofs.C17_Script Proofs.C17_Chan.
+From SygmaV Require Import Model.C17 Proofs.C17 Proofs.C17_Conc Proofs.C17_Script Proofs.C17_Chan Proofs.C17_Redeliver.
 Local Open Scope N_scope.
 
 (* A retry re-emits those and only those deposits of the block that are selected (destination and
@@ -354,4 +354,76 @@ Example C17_nonvacuous :
                   [false; false; false; false; false; false; true])
   = [(ORetry [mkDep 2 2 7; mkDep 2 3 7; mkDep 2 4 7], [(1, 2, 9)],
       [((1, 2, 2), Failed); ((1, 2, 1), Executed); ((1, 2, 2), Pending); ((1, 2, 3), Failed); ((1, 2, 9), Pending)])].
+Proof. vm_compute. repeat split. Qed.
+
+(* ---- redelivery on ONE long-lived executor (Model/C17.v redeliver_ok, the second judge of the
+   sequential histories) ---------------------------------------------------------------------------
+   A delivery without a store error takes on every delivered proposal that was recorded neither
+   executed nor pending when it arrived - for every store, every earlier history on this executor
+   (deliveries whose executions ended early, late, or not at all), every batch. *)
+Theorem C17_delivery_selects_startable : forall ks acc s sel s',
+  pfe_loop ks acc s = (Some sel, s') ->
+  (forall k, In k acc -> In k sel) /\
+  (forall k, In k ks -> startable (get (s_kv s) k) = true -> In k sel).
+Proof. exact pfe_selects. Qed.
+Print Assumptions C17_delivery_selects_startable.
+
+(* Hence the model passes the redelivery judge for ALL states, operation lists, and whatever the judge
+   believes to be in progress ([bs]) or to be a whole Execute call that has returned ([lives]). *)
+Theorem C17_model_redelivers : forall ops x bs lives,
+  redeliver_ok (s_kv (st x)) bs ops lives (run ops x) = true.
+Proof. exact redeliver_model. Qed.
+Print Assumptions C17_model_redelivers.
+
+(* What the judge demands of an observed delivery: a delivered proposal that is startable in the store
+   and is not busy - no execution of it in progress on this executor, and not part of a hook-level
+   delivery that ended with a store error - is among the selected ones ... *)
+Theorem C17_deliver_ok_sound : forall pre bs ks sel k,
+  deliver_ok pre bs ks sel = true -> In k ks ->
+  startable (get pre k) = true -> busy bs k = false -> In k sel.
+Proof. exact deliver_ok_sound. Qed.
+Print Assumptions C17_deliver_ok_sound.
+
+(* ... in particular what a retry re-emitted (the retry judge leaves it startable): "a deposit stuck
+   as pending is released for re-execution", on whatever executor object the redelivery arrives. *)
+Theorem C17_judge_released_redelivered : forall univ pre p src res dest ds em f post bs ks live sel post2 d,
+  judge_step univ pre (Retry p src res dest ds) (ORetry em, f, post) = true ->
+  In d em -> In (dkey src d) ks -> busy bs (dkey src d) = false ->
+  fst (redeliver_step post bs (Deliver ks) live (ODeliver (Some sel), [], post2)) = true ->
+  In (dkey src d) sel.
+Proof. exact judge_released_redelivered. Qed.
+Print Assumptions C17_judge_released_redelivered.
+
+(* An executor that keeps an in-memory mark of the proposals "being signed" and clears it only where
+   an execution reports its broadcast: delivery whose execution fails before the broadcast, retry
+   (released and re-emitted), redelivery - the retry judge is satisfied, the redelivery judge is not
+   (and the model, on the same operations, satisfies both: non-vacuity). *)
+Theorem C17_inflight_marker_refuted :
+  let tr := marker_run marker_ops (init_state [] [], []) in
+  hist_ok [(1, 2, 5)] [] marker_ops tr = true /\
+  redeliver_ok [] jinit marker_ops marker_lives tr = false /\
+  redeliver_ok [] jinit marker_ops marker_lives (run marker_ops (init_state [] [])) = true.
+Proof. exact marker_refuted. Qed.
+Print Assumptions C17_inflight_marker_refuted.
+
+(* ---- the EVM / Substrate executors (no status store): one whole Execute call hands every delivered
+   proposal the destination does not report executed to ProposalsHash / signing, for every delivery and
+   every place at which the call then fails - the model is stateless, so whatever failed before ... *)
+Theorem C17_xexec_processes : forall executed ks f, xdeliver_ok executed ks f false (xexec executed ks f) = true.
+Proof. exact xexec_ok. Qed.
+Print Assumptions C17_xexec_processes.
+
+(* ... and what the judge demands of an observed call: it returned, and unless one of its own status
+   lookups failed, every delivered proposal not reported executed was taken on. *)
+Theorem C17_xdeliver_ok_sound : forall executed ks f hung hashed k,
+  xdeliver_ok executed ks f hung hashed = true -> xlookup_failed ks f = false ->
+  hung = false /\ (In k ks -> memk k executed = false -> In k hashed).
+Proof. exact xdeliver_ok_sound. Qed.
+Print Assumptions C17_xdeliver_ok_sound.
+
+Example C17_xdeliver_nonvacuous :
+  xdeliver_ok [(1, 4, 2)] [(1, 4, 1); (1, 4, 2)] XKeyshare false [(1, 4, 1)] = true /\
+  xdeliver_ok [(1, 4, 2)] [(1, 4, 1); (1, 4, 2)] XKeyshare false [] = false /\
+  xdeliver_ok [] [(1, 4, 1)] (XQuery 0) false [] = true /\
+  xdeliver_ok [] [(1, 4, 1)] XSign true [(1, 4, 1)] = false.
 Proof. vm_compute. repeat split. Qed.
